@@ -662,6 +662,11 @@ def _build_time(case):
             t[int(frac * n):] += amount * dt
         for j in dup:
             t[j] = t[j - 1]
+    # stray time stamps far outside the record (outlier times: beyond mean +- 3 sigma for records of >= ~30
+    # samples), anywhere in the sample sequence - also after drop-outs
+    for frac, mult in case.get("outt", []):
+        span = max(t.max() - t.min(), dt)
+        t[int(frac * (n - 1))] = (t.max() + mult * span) if mult > 0 else (t.min() + mult * span)
     y = (rng.permutation(n) + 1) * 0.5 - 0.25 * n
     dropval = case["dropval"]
     dv = -1.40130e-45 if dropval is None else dropval
@@ -699,6 +704,8 @@ def oracle_fixtime(case, R):
     neg = bool(np.any(np.diff(t) < 0))
     R.label(f"mode:{case['mode']}", f"pack:{pack}", "hold" if hold else "nearest",
             "unsorted" if neg else "sorted", "drops" if ndrops else "no_drops")
+    if case.get("outt"):
+        R.label("stray_times" + ("+drops" if ndrops else ""))
     if not np.any(np.diff(t) > 0):
         # documented: no positive step in the whole time vector -> ValueError.  Demanded when
         # every step is negative; with zero steps among them sorting is an acceptable answer too
@@ -844,7 +851,11 @@ def fixtimes(draw):
     if not uniform and draw(st.booleans()):
         drops = [draw(st.sampled_from(["dropval", "nan", "inf", "mixed"])), draw(st.integers(1, 8))]
     hold = draw(st.booleans())
-    return {"seed": draw(st.integers(0, 2 ** 32 - 1)), "n": n, "mode": mode, "sr": sr, "t0": t0,
+    outt = []
+    if not uniform and n >= 30 and draw(st.integers(0, 2)) == 0:
+        outt = [[draw(st.floats(0.0, 1.0)), draw(st.sampled_from([5.0, 20.0, -8.0, 3.0]))]
+                for _ in range(draw(st.integers(1, 2)))]
+    return {"seed": draw(st.integers(0, 2 ** 32 - 1)), "n": n, "mode": mode, "sr": sr, "t0": t0, "outt": outt,
             "mul": draw(st.booleans()), "uniform": uniform,
             "jit": 0.0 if uniform else draw(st.sampled_from([0.0, 0.01, 0.1, 0.2, 0.2])),
             "gaps": gaps, "shifts": shifts,
